@@ -96,6 +96,7 @@ int  vt_stim_pending(void);
 void vt_interrupt_wait(void);		/* from a stimulus function: the deciding thread's wait returns EINTR (a signal arrived at this virtual instant) */
 
 /* harness-side blocking (join, barrier ...) so that the quiescence account stays right */
+void vt_mark_child(void);		/* in a child made by a raw fork/clone system call */
 void vt_block_begin(void);
 void vt_block_end(void);
 /* external actors (child processes): number of actions whose effect was not yet observed */
